@@ -351,6 +351,33 @@ Fixpoint run_wwtw (maxiter : nat) (w : nwwtw) (ops : list wop) : list Z :=
       end
   end.
 
+(* ---------------- FWTW (Wtw.v) ---------------- *)
+Inductive fop := FTreat | FPullCheck (ov : option Q) | FPullSet (q : Q) | FEnd (T : Q) | FOverride (p : wparams) (tank_cap : Q).
+Definition nfwtw := fwtw (nb * nb).
+Definition enc_fwtw (f : nfwtw) : list Z :=
+  ev (fw_cur _ f) ++ ev (fw_treated _ f) ++ ev (fw_liquor _ f) ++ ev (fw_solids _ f) ++ ev (fw_deficit _ f) ++ ev (fw_pulled _ f)
+  ++ ev (fw_prev_pulled _ f) ++ ev (fw_unpushed _ f) ++ enc_tank (fw_tank _ f) ++ enc_star (fw_ins _ f) ++ enc_star (fw_outs _ f).
+Definition fwtw_step (maxiter : nat) (f : nfwtw) (o : fop) : option (nfwtw * list Z) :=
+  match o with
+  | FTreat => match fw_treat_water _ nbport maxiter f with None => None | Some f' => Some (f', []) end
+  | FPullCheck ov => Some (f, ev (fw_pull_check _ f ov))
+  | FPullSet q => let '(f', r) := fw_pull_set _ f q in Some (f', ev r)
+  | FEnd T =>
+      let f1 := fw_end _ f T in
+      Some (mkFW _ (fw_p _ f1) (fw_cur _ f1) (fw_treated _ f1) (fw_liquor _ f1) (fw_solids _ f1) (fw_deficit _ f1) (fw_pulled _ f1)
+                 (fw_prev_pulled _ f1) (fw_unpushed _ f1) (fw_tank _ f1) (end_star (fw_ins _ f1)) (end_star (fw_outs _ f1)), [])
+  | FOverride p tc => Some (fw_override _ f p tc, [])
+  end.
+Fixpoint run_fwtw (maxiter : nat) (f : nfwtw) (ops : list fop) : list Z :=
+  match ops with
+  | [] => []
+  | o :: r =>
+      match fwtw_step maxiter f o with
+      | None => [(-999)%Z]
+      | Some (f', out) => out ++ enc_fwtw f' ++ run_fwtw maxiter f' r
+      end
+  end.
+
 (* ---------------- catchment ---------------- *)
 Inductive cop := CRoute | CPullCheck (ov : option Q) | CAbstract (j : nat) (q : Q) | CEnd.
 Record cstate := mkCS { cs_outs : nstar; cs_unrouted : vqip }.
